@@ -58,6 +58,10 @@ PATCHES = [
     {'types': {'F7': {'B': {'b': 'X1'}}}, 'funcs': {'F7': [['a', {'B': {'t': [{'b': 'X1'}, {'b': 'X1'}]}}]]}, 'asts': {'F7': 'F7:==[a∈ℬ(X1×X1)] Pr1(a)'}},
     {'types': {'F7': {'B': {'B': {'b': 'X1'}}}}, 'funcs': {'F7': [['a', {'B': {'B': {'b': 'X1'}}}]]}, 'asts': {'F7': 'F7:==[a∈ℬℬ(X1)] a∪{X1}'}},
     {'types': {'F7': {'B': {'b': 'X1'}}}, 'funcs': {'F7': [['a', {'B': {'b': 'X1'}}]]}, 'asts': {'F7': 'F7:==[a∈ℬ(X1)] a∪D1'}},
+    # same signature as the original F7, another body: the argument may be a property / must be a value / is not interpretable
+    {'types': {'F7': {'B': {'B': {'b': 'X1'}}}}, 'funcs': {'F7': [['a', {'B': {'B': {'b': 'X1'}}}]]}, 'asts': {'F7': 'F7:==[a∈ℬℬ(X1)] a∩{X1}'}},
+    {'types': {'F7': {'b': 'Z'}}, 'funcs': {'F7': [['a', {'B': {'B': {'b': 'X1'}}}]]}, 'asts': {'F7': 'F7:==[a∈ℬℬ(X1)] card(a)'}},
+    {'types': {'F7': {'B': {'B': {'b': 'X1'}}}}, 'funcs': {'F7': [['a', {'B': {'B': {'b': 'X1'}}}]]}, 'asts': {'F7': 'F7:==[a∈ℬℬ(X1)] D{x∈a | x=x}'}},
 ]
 
 
@@ -76,6 +80,11 @@ KINDS = {
     'ascii': ['X1 \\union D1', '\\A x \\in X1 x \\in D1', 'D{x \\in X1 | x \\eq x}', 'B(X1)', 'X1*D1', 'card(X1) \\gr 1', 'X1 \\union', '\\A x X1'],
     'empty': ['', ' ', '\n'],
     'props-calls': ['F7[ℬ(X1)]', 'F8[X1, ℬ(X1)]', 'F8[D1, ℬ(D1)]', 'F7[ℬ(D1)]', 'F7[X1×X1]', 'F7[X1]', 'F7[{X1}]', 'card(F7[ℬ(X1)])>F8[X1, ℬ(X1)]'],
+    # failures found only by a later pass of an internal retry loop (recursion re-typing), and inputs whose only findings are warnings
+    'late-failure': ['R{a:=∅ | D{b∈X1 | a=S1}}', 'R{a:=∅ | a∪{Pr1(a)}}', 'R{a:=∅ | D{b∈X1 | ∀c∈a c=b & a=S1}}',
+                     'R{(a,b):=(∅,0) | b<3 | (D{c∈X1 | a=S1}, b+1)}', '∀x∈X1 R{a:=∅ | D{b∈X1 | a=S1 & b=x}}=∅', 'R{a:=∅ | I{b | b:∈X1; a=S1}}'],
+    'warnings': ['D{x∈X1 | 1=1}', '∀x∈X1 1=1', 'D{x∈X1 | x=x}∪D{x∈X1 | x=x}', '[a∈ℬ(X1), b∈X1] a', 'D{x∈X1 | ∀y∈X1 x=x}', 'I{1 | a:∈X1}',
+                 'card(D{x∈X1 | 1=1})=card(D{x∈X1 | x=x})', 'R{a:=X1 | X1}', '∀(a,b)∈X1×X1 a=a', '[a∈ℬ(X1)] D{a∈X1 | 1=1}'],
     'reuse-names': ['∀a∈X1 a∈X1', 'D{a∈ℬ(X1) | a=a}', '[a∈ℬ(X1)] a∪a', '∀b∈X1 ∃c∈X1 b=c', 'F9 \\defexpr [a \\in B(X1)] a \\union X1', '∀x∈X1 ∀y∈X1 x=y', 'D{x∈X1 | ∃y∈D1 y=x}'],
 }
 
@@ -130,6 +139,15 @@ def gen_cases(desc, env):
                                ('props-calls', rnd.choice(KINDS['props-calls'][4:7])), ('props-calls', rnd.choice(KINDS['props-calls'][:4]))]
                         cases.append(sequence_case(spec, seq))
                 n += 1
+        if desc['i'] == 0:
+            # every ordered pair of F7 declarations under the living analysers, the same property-argument call before and after
+            for pi in range(len(PATCHES)):
+                for qi in range(len(PATCHES)):
+                    if pi == qi:
+                        continue
+                    for call in KINDS['props-calls']:
+                        if 'F7' in call:
+                            cases.append(sequence_case(spec, [('ctx-patch', pi), ('props-calls', call), ('ctx-patch', qi), ('props-calls', call)]))
     else:
         count = 8 if env.tier == 'quick' else 200
         for j in range(count):
